@@ -356,6 +356,7 @@ func (s *Lexer) getNextToken() (*Token, error) {
 		SOPERATOR
 		SOPERATORSTART
 		SREGEXP
+		SREGEXP_UNENDING
 		SERROR
 		SEND
 	)
@@ -519,12 +520,16 @@ func (s *Lexer) getNextToken() (*Token, error) {
 				break
 			}
 			curr_ch := s.read()
-			for curr_ch != '/' {
+			for curr_ch != '/' && curr_ch != 0 {
 				buf.WriteRune(curr_ch)
 				curr_ch = s.read()
 			}
 
-			current_state = SREGEXP
+			if curr_ch == 0 {
+				current_state = SREGEXP_UNENDING
+			} else {
+				current_state = SREGEXP
+			}
 			break
 		} else {
 			if current_state != SSTART || unicode.IsDigit(ch) || unicode.IsLetter(ch) || unicode.IsSpace(ch) || ch == '(' || ch == ')' || ch == '{' || ch == '}' || ch == ',' || ch == ':' || ch == '=' || ch == '"' || ch == '\'' || ch == '-' || ch == '+' || ch == '<' || ch == '>' || ch == '*' || ch == '/' || ch == '%' || ch == '@' {
@@ -541,6 +546,7 @@ func (s *Lexer) getNextToken() (*Token, error) {
 
 	unendingString := false
 	unendingBlockComment := false
+	unendingRegexp := false
 
 	switch current_state {
 	case SERROR:
@@ -556,6 +562,9 @@ func (s *Lexer) getNextToken() (*Token, error) {
 		token.TokenType = NUMBER
 	case SREGEXP:
 		token.TokenType = REGEXP
+	case SREGEXP_UNENDING:
+		unendingRegexp = true
+		token.TokenType = ERROR
 	case SIDENTIFIER:
 		token.TokenType = IDENTIFIER
 		lexeme := strings.ToLower(buf.String())
@@ -739,6 +748,8 @@ func (s *Lexer) getNextToken() (*Token, error) {
 		return nil, NewLexError(token, "Unending block comment")
 	} else if token.TokenType == ERROR && unendingString {
 		return nil, NewLexError(token, "Unending string")
+	} else if token.TokenType == ERROR && unendingRegexp {
+		return nil, NewLexError(token, "Unending regexp")
 	} else if token.TokenType == ERROR {
 		return nil, NewLexError(token, "Unknown token")
 	}
